@@ -567,18 +567,31 @@ def value_contexts():
     return ctx
 
 
+SWEEP_VALUES = ["abc", "1e", "", "10-20-30", "0", "1", "-1", "1e999", "0.5"]
+
+
 def value_docs(rng, n):
     """-> list of (label, bytes, split, expect); expect = ('refuse', line) when a documented-numeric attribute got a value
-    outside its documented literal language: the document must be refused with that line"""
+    outside its documented literal language: the document must be refused with that line.
+    First a deterministic sweep (every context x every attribute x SWEEP_VALUES: a non-number, a truncated number, the empty
+    string, degrees, the range borders 0 / 1 / -1, an overflowing number), then n random documents."""
     ctxs = value_contexts()
     out = []
-    for i in range(n):
-        tag, attrs, wrap = rng.choice(ctxs)
+    sweep = [(ci, j, v) for ci, (_t, at, _w) in enumerate(ctxs) for j in range(len(at)) for v in SWEEP_VALUES]
+    for i in range(len(sweep) + n):
+        if i < len(sweep):
+            tag, attrs, wrap = ctxs[sweep[i][0]]
+        else:
+            tag, attrs, wrap = rng.choice(ctxs)
         attrs = list(attrs)
         expect = None
         what = []
-        r = rng.random()
-        if r < 0.08:
+        r = rng.random() if i >= len(sweep) else 2.0
+        if i < len(sweep):
+            k = attrs[sweep[i][1]][0]
+            attrs[sweep[i][1]] = (k, sweep[i][2])
+            what.append(f"{k}={sweep[i][2]!r}")
+        elif r < 0.08:
             label_kind = "valid"
         elif r < 0.16 and attrs:
             j = rng.randrange(len(attrs))
@@ -1364,7 +1377,7 @@ def correspond(ctx, corr):
                 docs.append((f"allsplits {j}", b, k, "accept"))
             for k in range(0, len(mb) + 1):
                 docs.append((f"allsplits mutated {j}: {what}", mb, k, None))
-    vd = value_docs(rng, ctx.size(1500, 15000))
+    vd = value_docs(rng, ctx.size(700, 15000))
     docs += vd
     run_docs(ctx, corr, exe, docs, "events")
     ctx.log(f"event correspondence: {len(docs)} documents ({len(vd)} with attribute values from the literal languages and their complements)")
@@ -1416,6 +1429,8 @@ def classify(ctx, failure):
         return "C11-svd-empty-ub"
     if "heap-buffer-overflow" in w and "LocalNetwork::Unknown::operator=" in det and "LocalNetwork::project_equations" in det:
         return "C11-unknowns-stale-index"
+    if "heap-buffer-overflow" in w and "TestLinearizationVisitor::visit" in det and "GNU_gama::local::TestLinearization(" in det:
+        return "C11-linearization-stale-index"      # round 4, corpus/C11/pending/zangle-linearization-test-oob.gkf (effective once listed as known)
     if ("does not terminate" in w) and re.search(r'val="[^"]*(1e999|1e300|1e18|inf)[^"]*"', doc):
         return "C11-norm-rad-hang"
     if "rc=87" in w and re.search(r"memrep\.h:\d+:\d+: runtime error: null pointer passed as argument", det):
